@@ -57,6 +57,7 @@ fn replay_one(r: &Value, prop: &str, rep: &mut Report) {
                 unordered: r["unordered"].as_array().cloned().unwrap_or_default(),
                 values: Default::default(),
                 multi: None,
+                fits: true,
             };
             rep.evaluations += 1;
             proto::judge_value(prop, entry, &r["case"], &b, &script, &rec, rep);
